@@ -104,6 +104,22 @@ def run(res, tier, rng, table_diffs=()):
                 cases.append(("order", a))
                 meta.append(("local-vs-global", a, b))
                 meta.append(("literal-vs-variable", a, k))
+    # every operator, local on the LEFT of the literal (the directly fused shape), over SIGNED values incl. powers of two and
+    # the range ends: in a function (fused instruction) vs at top level (generic instructions) vs the literal held in a variable
+    big = 2 ** 59
+    sargs = ["(0 - 1152921504606846975 - 1)", "(0 - %d)" % (big + 1), "(0 - 17)", "(0 - 9)", "(0 - 8)", "(0 - 3)", "(0 - 1)", "0", "3", "8", "1152921504606846975"]
+    sconsts = ["1", "2", "3", "8", "16", str(big)]
+    if tier == "quick":
+        sargs = sargs[rng.below(2)::2] + ["(0 - 3)", "(0 - 8)"]
+    for op in ["<", "<=", ">", ">=", "==", "!=", "+", "-", "*", "/", "%"]:
+        for c in sconsts:
+            for v in sargs:
+                a = "functie f(n) { n %s %s } f(%s)" % (op, c, v)
+                b = "stel n = %s; n %s %s" % (v, op, c)
+                k = "functie f(n) { stel k = %s; n %s k } f(%s)" % (c, op, v)
+                cases.append(("signed-fused", a))
+                meta.append(("local-vs-global", a, b))
+                meta.append(("literal-vs-variable", a, k))
     # equal literals elsewhere in the program
     for s in ['"abc"', "1.5", "7"]:
         a = 'stel a = %s; stel b = %s; a == b' % (s, s)
